@@ -1,9 +1,10 @@
 import PP.Driver.Codec
+import PP.Model.StrDoc
 open PP PP.Sexp
 
 /-- one layout configuration `(w rw smart)` -/
 def decodeCfg : Sexp → Option Cfg
-  | .list [w, rw, sm] => do some { w := ← int? w, rw := ← int? rw, smart := (← nat? sm) == 1 }
+  | .list [w, rw, sm] => do some { w := ← int? w, rw := ← int? rw, smart := (← nat? sm) == 1, ev := Pr.evalStr }
   | _ => none
 
 def handle (req : Sexp) : Sexp :=
@@ -15,6 +16,22 @@ def handle (req : Sexp) : Sexp :=
         let out := layout cfg d
         .list [encodeSDocs out, ofStr "text" (render out)])
     | _, _ => sym "bad-request"
+  | .list [.atom "strlines", isB, slash, maxLen, q, .list chars] =>
+    match nat? isB, nat? slash, nat? maxLen, nat? q, nats? chars with
+    | some b, some sl, some ml, some q, some cs =>
+      if h : 0 < ml then
+        let ls := PyStr.strToLines (b == 1) (sl == 1) ml h q (cs.map decodePChar)
+        .list (sym "ok" :: ls.map fun l => ofStr "s" (PyStr.cps l))
+      else sym "assertion"
+    | _, _, _, _, _ => sym "bad-request"
+  | .list [.atom "esc", isB, q, .list chars] =>
+    match nat? isB, nat? q, nats? chars with
+    | some b, some q, some cs => ofStr "ok" (PyStr.escapeForQuote (b == 1) q (cs.map decodePChar))
+    | _, _, _ => sym "bad-request"
+  | .list [.atom "quote", .list chars] =>
+    match nats? chars with
+    | some cs => .list [sym "ok", ofNat (PyStr.determineQuote (cs.map decodePChar))]
+    | _ => sym "bad-request"
   | .list [.atom "chk", strict, d, out] =>
     match nat? strict, decodeDoc d, decodeSDocs out with
     | some st, some d, some out => .list [sym "ok", ofNat (if checkLay (st == 1) d out then 1 else 0)]
